@@ -552,6 +552,34 @@ func c07Helpers(c *core.Collector, x *Ctx) {
 		}
 		c.Count("repeated_rune_strings", int64(nrep))
 	}
+	// long texts: a converter that works in blocks (256 / 512 / 1024 / 4096 bytes) splits a multi-byte character that lies
+	// across a block boundary. Runs of a 2-byte-GBK / 3-byte-UTF-8 character and of 2/2-byte characters behind ASCII prefixes
+	// of every length 0..5, total lengths up to 9 000 bytes: some character straddles every offset class of every block size
+	{
+		nlong := 0
+		for _, r := range []rune{'中', '·', '€', 'é', '京'} {
+			for prefix := 0; prefix <= 5; prefix++ {
+				for _, k := range []int{100, 170, 171, 172, 200, 255, 256, 257, 341, 342, 500, 512, 513, 700, 1024, 1366, 2048, 3000} {
+					s := strings.Repeat("A", prefix) + strings.Repeat(string(r), k)
+					nlong++
+					c.Eval()
+					guard(c, func() any {
+						return map[string]any{"fn": "UTF82GBK/GBK2UTF8", "rune": string(r), "repeat": k, "ascii_prefix": prefix}
+					}, func() {
+						g := utils.UTF82GBK([]byte(s))
+						if want := gen.GBKEncode(s); !bytes.Equal(g, want) {
+							viol("UTF82GBK|differs from x/text encoder", fmt.Sprintf("UTF82GBK(%d x %q behind %d ASCII bytes) has %d bytes, x/text gives %d", k, string(r), prefix, len(g), len(want)), map[string]any{"fn": "UTF82GBK", "rune": string(r), "repeat": k, "ascii_prefix": prefix})
+							return
+						}
+						if back := string(utils.GBK2UTF8(g)); back != s {
+							viol("GBK2UTF8|round trip", fmt.Sprintf("GBK2UTF8(UTF82GBK(%d x %q behind %d ASCII bytes)) has %d bytes, want %d", k, string(r), prefix, len(back), len(s)), map[string]any{"fn": "GBK2UTF8", "rune": string(r), "repeat": k, "ascii_prefix": prefix})
+						}
+					})
+				}
+			}
+		}
+		c.Count("long_texts", int64(nlong))
+	}
 	c.Sample(map[string]any{"law": "GBK2UTF8(UTF82GBK(s))==s", "code_points": len(runes), "example": "京A·12345"})
 	c.Sample(map[string]any{"law": "BCD2Time(Time2BCD(t))==t", "example": times[len(times)/2]})
 	c.Exh = true
